@@ -318,7 +318,7 @@ func runC07(r *rt.Runner) {
 	for b := 0; b < r.Scale(100, 3000); b++ {
 		r.Do(fmt.Sprintf("api/%d", b), func(c *rt.C) {
 			g := &j5Gen{rng: c.Rand()}
-			bundle, _ := g.apiBundle(b%3 != 0, b%2 == 0, g.rng.Intn(5))
+			bundle, _ := g.apiBundle(b%3 != 0, b%2 == 0, g.rng.Intn(7))
 			c07Run(c, bundle.sources(), fmt.Sprintf("api:%d", b), true, "random-api")
 		})
 	}
